@@ -12,6 +12,7 @@ mod c09;
 mod c11;
 mod c12;
 mod c14;
+mod c17;
 mod codecref;
 mod ops;
 mod ops2;
@@ -22,10 +23,16 @@ use std::panic;
 
 pub struct Case {
     pub op: String,
+    /// for ops derived from a trace of the real code (their "implementation output" is what the real code
+    /// produced when the trace was taken; they cannot be re-executed from the op text alone)
+    pub fixed_out: Option<String>,
 }
 impl Case {
     pub fn new(op: String) -> Self {
-        Case { op }
+        Case { op, fixed_out: None }
+    }
+    pub fn traced(op: String, out: String) -> Self {
+        Case { op, fixed_out: Some(out) }
     }
 }
 
@@ -95,6 +102,7 @@ fn oracle(prop: &str, op: &[&str], out: &str) -> Verdict {
         "C11" => c11::oracle(op, out),
         "C02" => c02::oracle(op, out),
         "C09" => c09::oracle(op, out),
+        "C17" => c17::oracle(op, out),
         "C03" => c03::oracle(op, out),
         "C14" => c14::oracle(op, out),
         _ => Verdict::NotApplicable,
@@ -109,6 +117,7 @@ fn generate(prop: &str, tier: &str, rng: &mut util::Prng) -> Vec<Case> {
         "C11" => c11::generate(tier, rng),
         "C02" => c02::generate(tier, rng),
         "C09" => c09::generate(tier, rng),
+        "C17" => c17::generate(tier, rng),
         "C03" => c03::generate(tier, rng),
         "C14" => c14::generate(tier, rng),
         _ => {
@@ -118,8 +127,14 @@ fn generate(prop: &str, tier: &str, rng: &mut util::Prng) -> Vec<Case> {
     }
 }
 
-fn run_and_judge(prop: &str, tier: &str, seed: u64, lines: &[String], ncorpus: usize, outdir: &str) {
-    let out = exec_all(lines);
+fn run_and_judge(prop: &str, tier: &str, seed: u64, lines: &[String], fixed: &[Option<String>], ncorpus: usize, outdir: &str) {
+    // ops with a traced output are not executed
+    let todo: Vec<String> = lines.iter().zip(fixed.iter()).filter(|(_, f)| f.is_none()).map(|(l, _)| l.clone()).collect();
+    let mut done = exec_all(&todo).into_iter();
+    let out: Vec<String> = fixed.iter().map(|f| match f {
+        Some(o) => o.clone(),
+        None => done.next().unwrap(),
+    }).collect();
     let mut fo = std::io::BufWriter::new(std::fs::File::create(format!("{outdir}/ops.txt")).unwrap());
     let mut fi = std::io::BufWriter::new(std::fs::File::create(format!("{outdir}/impl.out")).unwrap());
     let mut fr = std::io::BufWriter::new(std::fs::File::create(format!("{outdir}/oracle.out")).unwrap());
@@ -194,14 +209,16 @@ fn main() {
             let ncorpus = cases.len();
             cases.extend(generate(prop, tier, &mut rng));
             let lines: Vec<String> = cases.iter().map(|c| c.op.clone()).collect();
-            run_and_judge(prop, tier, seed, &lines, ncorpus, outdir);
+            let fixed: Vec<Option<String>> = cases.iter().map(|c| c.fixed_out.clone()).collect();
+            run_and_judge(prop, tier, seed, &lines, &fixed, ncorpus, outdir);
         }
         "judge" => {
             // vh judge <PROP> <ops.txt> <outdir>: execute given ops and evaluate the property's predicate (replays)
             let (prop, opsfile, outdir) = (&args[2], &args[3], &args[4]);
             std::fs::create_dir_all(outdir).unwrap();
             let lines: Vec<String> = std::fs::read_to_string(opsfile).unwrap().lines().map(|s| s.to_string()).collect();
-            run_and_judge(prop, "replay", 0, &lines, 0, outdir);
+            let fixed = vec![None; lines.len()];
+            run_and_judge(prop, "replay", 0, &lines, &fixed, 0, outdir);
         }
         _ => {
             eprintln!("unknown command");
